@@ -400,13 +400,13 @@ class Interp(Engine):
     def ev_Call(self, n, fr):
         # zero-argument super()
         if isinstance(n.func, ast.Name) and n.func.id == "super" and not n.args:
-            selfv = fr.vars.get(fr.func.node.args.args[0].arg) if fr.func else None
             f = fr
             while f is not None and (f.func is None or f.func.defcls is None):
                 f = f.parent
             if f is None:
                 raise Unsupported("super() outside a method")
-            selfv = f.vars[f.func.node.args.args[0].arg]
+            a_ = f.func.node.args
+            selfv = f.vars[(a_.posonlyargs + a_.args)[0].arg]
             return SuperProxy(selfv, f.func.defcls)
         if self.spec_mode and isinstance(n.func, ast.Name) and n.func.id in ("old", "entry"):
             attr = "old_vars" if n.func.id == "old" else "entry_vars"
